@@ -581,7 +581,7 @@ func realiseBase(v J, r *Repr, path, h string) (any, error) {
 				return sv.Addr().Interface(), nil
 			}
 			return sv.Interface(), nil
-		case "mixedkeys": // keys of several kinds, named by a prefix: "i:1" the integer 1, "s:1" the text "1", "b:true" the boolean
+		case "mixedkeys": // keys of several kinds, named by a prefix: "i:1" the integer 1 ("l:1", "u:1", "f:1": as int64, uint8, float64), "s:1" the text "1", "b:true" the boolean
 			t := map[any]any{}
 			for _, k := range keys {
 				switch {
@@ -591,6 +591,20 @@ func realiseBase(v J, r *Repr, path, h string) (any, error) {
 						return nil, fmt.Errorf("repr mixedkeys: %q", k)
 					}
 					t[n] = out[k]
+				case strings.HasPrefix(k, "l:"), strings.HasPrefix(k, "u:"), strings.HasPrefix(k, "f:"):
+					// the same number as an int64, a uint8, a float64 key: different keys of one map
+					n, err := strconv.Atoi(k[2:])
+					if err != nil {
+						return nil, fmt.Errorf("repr mixedkeys: %q", k)
+					}
+					switch k[0] {
+					case 'l':
+						t[int64(n)] = out[k]
+					case 'u':
+						t[uint8(n)] = out[k]
+					default:
+						t[float64(n)] = out[k]
+					}
 				case strings.HasPrefix(k, "b:"):
 					t[k[2:] == "true"] = out[k]
 				case strings.HasPrefix(k, "s:"):
